@@ -101,7 +101,26 @@ def run(p: Program, rep: Report, tier: str) -> None:
         if isinstance(pair_sep, str) and pair_sep:
             rep.violation("R16.1", construct(fn, text=f"split({pair_sep!r})"), where(fn), f"the reader splits the Cookie header on {pair_sep!r}, not on ';'")
         else:
-            rep.undecide("R16.1", "pair separator of the reader not found")
+            # the header handed to the package's quote-aware parameter splitter: its quote parity counts every `\"` as an escaped quote,
+            # the writer emits `\\"` (escaped backslash, closing quote) at the end of a value that ends in a backslash
+            pp = None
+            for lp in ast.walk(fn.node):
+                if isinstance(lp, (ast.For, ast.comprehension)):
+                    for c in ast.walk(lp.iter):
+                        if isinstance(c, ast.Call) and isinstance(c.func, ast.Name) and c.func.id == "_parseparam":
+                            pp = c
+            try:
+                ppf = p.module("baize.utils").functions.get("_parseparam")
+            except Exception:
+                ppf = None
+            wrote_bs = emitted(w, 0x5C)
+            if pp is not None and ppf is not None and "count('\\\\\"'" in ast.unparse(ppf.node) and wrote_bs == "\\\\":
+                rep.violation("R16.1", construct(fn, text=f"Cookie header split by {ast.unparse(pp)[:40]}"), where(fn, pp),
+                              "the reader splits the Cookie header with utils._parseparam, whose quote parity (count of '\"' minus count of '\\\"') takes every backslash-quote for an escaped quote; "
+                              "the writer ends a value that ends in a backslash with `\\\\\"` (escaped backslash + closing quote), which that parity reads as a still-open quote: the following ';' is "
+                              "not a separator any more, the cookies after such a value are swallowed into it and it is not unquoted", positive=True)
+            else:
+                rep.undecide("R16.1", "pair separator of the reader not found")
     if kv_sep is None and maxsplit is None:
         # no split / partition of a pair at '=' found at all (the header is tokenised by a regular expression, a scanner ...)
         rep.undecide("R16.1", "the reader separates name from value in an idiom outside the table (no split / partition at '=')")
@@ -198,6 +217,12 @@ def run(p: Program, rep: Report, tier: str) -> None:
                     rep.violation("R16.3", construct(s, text=f"strftime({fmt!r})"), where(s, c), f"Expires is not formatted as an HTTP date ({want!r})")
                 else:
                     rep.ok("R16.3", f"Expires formatted from {recv} with {fmt!r}")
+    for f_ in s_unit:
+        for c in calls_in(f_):
+            if ast.unparse(c.func) in ("time.mktime", "mktime") and len(c.args) == 1 and ast.unparse(c.args[0]) in ("self.expires.timetuple()", "self.expires.utctimetuple()"):
+                rep.violation("R16.3", construct(s, text=f"{ast.unparse(c)[:50]}"), where(f_, c),
+                              f"Cookie.__str__ turns the Expires datetime into a timestamp with `{ast.unparse(c)[:50]}`: mktime reads the (UTC) fields as LOCAL time, so the Expires text is off "
+                              "by the process's UTC offset whenever the time zone is not UTC - an expires of N seconds is announced hours early or late, delete_cookie can announce a future date", positive=True)
     if not gmt_fields:
         rep.undecide("R16.3", "no strftime with a GMT literal in Cookie.__str__ (Expires formatting changed)")
     # the link between the two: Cookie.__init__ keeps every argument as it was given (the UTC-aware datetime built by
@@ -431,6 +456,70 @@ def _request_header_values(p: Program, rep: Report) -> None:
                 else:
                     rep.undecide("R16.5", f"{side}: header value element of an unrecognised form: {show(val)[:80]}")
     rep.require_instances("R16.5", 2)
+
+    # ------------------------------------------------------------------ R16.6 every cookie set on the response is emitted, in order
+    # set_cookie appends to self.cookies; a user agent applies the Set-Cookie lines in order (the later one of a name wins, an expired
+    # one deletes). list_headers therefore emits one line per element of self.cookies itself: a filtered or de-duplicated view
+    # (keep-first per name) drops the value set last - or the deletion.
+    lh = p.cls("baize.responses:BaseResponse").methods.get("list_headers")
+    if lh is None:
+        rep.undecide("R16.6", "BaseResponse.list_headers vanished")
+    else:
+        rep.analysed(lh.fq)
+        n_ck = 0
+        for f_ in with_helpers(p, lh):
+            for g in ast.walk(f_.node):
+                if not isinstance(g, (ast.GeneratorExp, ast.ListComp)) or not isinstance(g.elt, ast.Tuple) or len(g.elt.elts) != 2:
+                    continue
+                k0 = g.elt.elts[0]
+                if not (isinstance(k0, ast.Constant) and k0.value in ("set-cookie", b"set-cookie")):
+                    continue
+                gen0 = g.generators[0]
+                it_ = gen0.iter
+                if ast.unparse(it_) == "self.cookies" and not gen0.ifs and len(g.generators) == 1:
+                    n_ck += 1
+                    rep.ok("R16.6", f"{f_.fq}: one {k0.value!r} line per element of self.cookies, in order")
+                    continue
+                why = None
+                if gen0.ifs:
+                    why = f"filtered by `{ast.unparse(gen0.ifs[0])[:40]}`"
+                elif isinstance(it_, ast.Name):
+                    from ..common import defs_of
+                    ds = defs_of(f_, it_, depth=3)
+                    for d_ in ds:
+                        if isinstance(d_, ast.Call) and isinstance(d_.func, ast.Attribute) and d_.func.attr == "values":
+                            why = f"taken from `{ast.unparse(d_)[:40]}`, a mapping with one cookie per key"
+                        elif isinstance(d_, ast.Call) and isinstance(d_.func, ast.Name) and d_.func.id in ("set", "frozenset"):
+                            why = f"taken from `{ast.unparse(d_)[:40]}`, an unordered set"
+                        elif isinstance(d_, ast.Subscript) and isinstance(d_.slice, ast.Slice) and ast.unparse(d_.value) == "self.cookies":
+                            why = f"only the slice `{ast.unparse(d_)[:40]}`"
+                elif isinstance(it_, ast.Call) and isinstance(it_.func, ast.Attribute) and it_.func.attr == "values":
+                    why = f"taken from `{ast.unparse(it_)[:40]}`, a mapping with one cookie per key"
+                if why is not None:
+                    n_ck += 1
+                    rep.violation("R16.6", construct(f_, text=f"set-cookie lines from {ast.unparse(it_)[:40]}"), where(f_, g),
+                                  f"list_headers does not emit one Set-Cookie line per cookie that was set: the cookies are {why} - of two cookies with the same name (set twice; set then "
+                                  "delete_cookie) only one reaches the client, so the value set last or the deletion is lost", positive=True)
+        if n_ck == 0:
+            # other layouts of the same thing: a loop / map() / starred spread over self.cookies itself, in list_headers or a private helper
+            direct = filt = 0
+            for f_ in with_helpers(p, lh):
+                for n in ast.walk(f_.node):
+                    if isinstance(n, (ast.For, ast.comprehension)) and ast.unparse(n.iter) == "self.cookies":
+                        if isinstance(n, ast.comprehension) and n.ifs:
+                            filt += 1
+                        else:
+                            direct += 1
+                    elif isinstance(n, ast.Call) and isinstance(n.func, ast.Name) and n.func.id == "map" and len(n.args) == 2 and ast.unparse(n.args[1]) == "self.cookies":
+                        direct += 1
+                    elif isinstance(n, ast.Call) and isinstance(n.func, ast.Name) and n.func.id == "filter" and len(n.args) == 2 and ast.unparse(n.args[1]) == "self.cookies":
+                        filt += 1
+            if direct and not filt:
+                n_ck += 1
+                rep.ok("R16.6", f"list_headers (with its private helpers) walks self.cookies itself {direct} time(s), unfiltered")
+            else:
+                rep.undecide("R16.6", "list_headers: no ('set-cookie', ...) comprehension / loop / map over the cookie list itself found (idiom outside the table)")
+    rep.require_instances("R16.6", 1)
 
 
 def _k(v) -> str:
